@@ -134,7 +134,9 @@ func repeatAfterScribble(c *kit.Case, rt reflect.Type, label string, tx texts, r
 	}
 	for i := range res1 {
 		if same, kind := sameOutcome(res0[i], res1[i]); !same {
-			c.Viol("C17/history-dependent/"+kind+"/after-"+class,
+			// (the scribble class is in the witness, not in the key: state left behind by an earlier
+			// call may surface rounds later)
+			c.Viol("C17/history-dependent/"+kind+"/"+fmtNames[i],
 				"the same document loaded again after an unrelated call gives a different result",
 				map[string]any{"type": typeText(rt), "label": label, "entry_points": entries[i].name, "document": tx[i],
 					"scribble": class, "first_result": res0[i].describe(), "result_after_scribble": res1[i].describe()})
@@ -207,7 +209,7 @@ func runHistory(c *kit.Case) {
 			continue
 		}
 		if same, kind := sameOutcome(r1, r2); !same {
-			c.Viol("C17/history-dependent/"+kind+"/after-"+class,
+			c.Viol("C17/history-dependent/"+kind+"/"+fmtNames[e.fmt],
 				"the same document loaded again after an unrelated call gives a different result", wit())
 			continue
 		}
